@@ -1,6 +1,6 @@
 /- C09 helper definitions and lemmas (the logical specification the model is refined to). -/
 import Verif.C09.Model
-import Verif.C08.Props
+import Verif.C08.Lemmas
 
 namespace Verif.C09
 open Verif.Py Verif.Tables
@@ -217,6 +217,24 @@ end Verif.C09
 namespace Verif.C09
 open Verif.Py Verif.Tables
 open Verif.C08 (Val escape unescape splitRaw joinRaw normEmpty)
+
+/-- C08 `split_join` for a line with its terminator, re-derived here from the C08 lemmas so that
+this file does not depend on the whole of C08's Props (dates, integers). -/
+theorem split_join_nl (vs : List (Option (List Char))) (hne : vs ≠ []) :
+    splitRaw (joinRaw vs ++ ['\n']) = .ok (vs.map normEmpty) := by
+  have hnl : '\n' ∉ joinRaw vs := by
+    unfold joinRaw
+    rw [C08.tables_ok.2]
+    apply C08.not_mem_joinWith '@' '\n' _ (by decide)
+    intro p hp
+    simp only [List.mem_map] at hp
+    obtain ⟨v, _, rfl⟩ := hp
+    exact (C08.L.escape_safe _).1
+  unfold splitRaw
+  rw [C08.rstripChar_snoc, C08.rstripChar_not_mem _ _ hnl]
+  unfold joinRaw
+  rw [C08.tables_ok.2, C08.splitOn_joinWith '@' _ (by simpa using hne) (C08.cols_no_delim vs)]
+  exact C08.mapM_cols vs
 
 /-- the cells `join(record, fields)` prints -/
 def cellsOf (fields : List Field) (vals : List Val) : List (List Char) :=
